@@ -107,7 +107,7 @@ theorem good_serial (d : Node) (cs : TL) (hc : cleanNode d = true) (hser : d.isS
   rw [start_serial d cs g hc hser htmo hg.1 hnx]
   have hgen := fun ops hcf => gen cs KI val vis hK (List.length ops) ops (Nat.le_refl _) (decNode d cs.length) cs g
     (serialStart {} d cs.length).2 (List.range cs.length) hcf hd rfl hF (List.nodup_range) hki hg
-  refine ⟨rfl, ?_, applyNext_now cs KI val vis hK _ _ _ _ _ hd hF hki hg, rfl,
+  refine ⟨rfl, ?_, applyNext_now cs KI val vis hK _ _ _ _ _ hd hF hki hg, trivial,
     applyNext_notdue cs KI val vis hK _ _ _ _ _ hd hF hki hg, ?_⟩
   · have := (hgen [] (by simp)).1; simpa [runU] using this
   · intro ops hcf
